@@ -92,8 +92,17 @@ func runRecover(c *ctx) error {
 			name = fmt.Sprintf("recover/unfit/%d", sc)
 		}
 		t0 := uint32(600 + rng.Intn(600))
+		// every third scenario: a device installed after the server's window has moved on (its history begins inside the
+		// current window, whose start is not 0)
+		young := sc%3 == 1
+		if young {
+			t0 = uint32(3400 + rng.Intn(200))
+		}
 		if err := s.fresh(name, t0); err != nil {
 			return err
+		}
+		if young {
+			s.waitOffset(2016)
 		}
 		ts.Scenario(name)
 		devName := fmt.Sprintf("cl%d", sc)
@@ -120,7 +129,11 @@ func runRecover(c *ctx) error {
 			servers[s.KR.Gen(k)] = client.GCAServer{Location: "127.0.0.1", TcpPort: f.Port, UdpPort: uint16(rl.port), HttpPort: 1}
 			dead = append(dead, k)
 		}
-		cli, err := hx.NewCliEnv(s.Abs, ts, c.root, devName, devID, t0-500, servers)
+		origin := t0 - 500
+		if young {
+			origin = t0 - 40
+		}
+		cli, err := hx.NewCliEnv(s.Abs, ts, c.root, devName, devID, origin, servers)
 		if err != nil {
 			return err
 		}
